@@ -51,19 +51,42 @@ def _cleanup(_):
 
 
 def pmap(fn, items, procs=None, chunksize=None, initfn=None):
-    """Ordered parallel map. Worker scratch directories are removed before returning."""
+    """Ordered parallel map. All scratch directories live under one base directory created here and removed before
+    returning (worker processes leave through os._exit, so their atexit handlers cannot be relied upon); the caller's
+    TMPDIR, tempfile.tempdir, PATH and cwd are restored."""
+    global _SCRATCH  # pylint: disable=global-statement
     items = list(items)
     procs = procs or min(int(os.environ.get("VERIF_PROCS", "16")), max(1, len(items)))
-    if procs <= 1 or len(items) <= 1:
-        _init(initfn)
+    saved = (os.environ.get("TMPDIR"), tempfile.tempdir, os.environ.get("PATH"), os.getcwd(),
+             os.environ.get("VERIF_SCRATCH_BASE"), _SCRATCH)
+    outer = saved[4] or "/tmp"
+    if _SCRATCH and os.path.isdir(_SCRATCH):
+        outer = _SCRATCH if not saved[4] else outer
+    base = tempfile.mkdtemp(prefix="verif_pool_", dir=outer if os.path.isdir(outer) else "/tmp")
+    os.environ["VERIF_SCRATCH_BASE"] = base
+    try:
+        if procs <= 1 or len(items) <= 1:
+            _SCRATCH = None
+            _init(initfn)
+            try:
+                return [fn(x) for x in items]
+            finally:
+                _cleanup(None)
+        ctx = mp.get_context("fork")
+        if chunksize is None:
+            chunksize = max(1, len(items) // (procs * 8))
+        with ctx.Pool(procs, initializer=_init, initargs=(initfn,)) as pool:
+            return pool.map(fn, items, chunksize=chunksize)
+    finally:
+        _SCRATCH = saved[5]
+        for key, val in (("TMPDIR", saved[0]), ("PATH", saved[2]), ("VERIF_SCRATCH_BASE", saved[4])):
+            if val is None:
+                os.environ.pop(key, None)
+            else:
+                os.environ[key] = val
+        tempfile.tempdir = saved[1]
         try:
-            return [fn(x) for x in items]
-        finally:
-            _cleanup(None)
-    ctx = mp.get_context("fork")
-    if chunksize is None:
-        chunksize = max(1, len(items) // (procs * 8))
-    with ctx.Pool(procs, initializer=_init, initargs=(initfn,)) as pool:
-        res = pool.map(fn, items, chunksize=chunksize)
-        pool.map(_cleanup, range(procs * 4), chunksize=1)
-    return res
+            os.chdir(saved[3])
+        except OSError:
+            os.chdir("/")
+        shutil.rmtree(base, ignore_errors=True)
